@@ -129,6 +129,10 @@ func c10Nest(rng *rand.Rand) string {
 	b.WriteString("print \"early\" (fn2 2)\n")
 	b.WriteString("func fn1:num n:num\n    g = g + 1\n    if n > 0\n        return (fn1 n-1) + 1\n    end\n    return g\nend\n")
 	b.WriteString("func fn2:num n:num\n    t := n * 2\n    for i := range n\n        if i == 1\n            return t + i\n        end\n        t = t + g\n    end\n    return t\nend\n")
+	// the same loop statement active several times at once: recursion from inside a numeric / array / map / string loop body
+	b.WriteString("func fn3:num n:num\n    t := 0\n    for i := range n\n        t = t + i + (fn3 n-1)\n        print \"fn3\" n i t\n    end\n    return t\nend\n")
+	b.WriteString("func walk d:num\n    if d == 0\n        return\n    end\n    for i := range 3 0 -1\n        print \"walk\" d i\n        walk d-1\n    end\n    for e := range [d d+1]\n        print \"walka\" d e\n        walk d-1\n    end\n    for k := range {p:1 q:2}\n        print \"walkm\" d k\n        walk d-1\n    end\n    for c := range \"xy\"\n        print \"walks\" d c\n        walk d-1\n    end\nend\n")
+	fmt.Fprintf(&b, "print (fn3 %d)\nwalk %d\n", 2+rng.Intn(2), 1+rng.Intn(2))
 	b.WriteString("func proc n:num\n    print \"proc\" n\n")
 	if !block("    ", 3, false, true, []string{"n"}) {
 		b.WriteString("    print \"proc-end\" n\n")
